@@ -2336,6 +2336,8 @@ pub fn compile<I: BufRead, O: Write>(
         .op(Op::infix(Rule::assign, Assoc::Right)
             | Op::infix(Rule::mass, Assoc::Right)
             | Op::infix(Rule::pass, Assoc::Right)
+            | Op::infix(Rule::mulass, Assoc::Right)
+            | Op::infix(Rule::divass, Assoc::Right)
             | Op::infix(Rule::andass, Assoc::Right)
             | Op::infix(Rule::orass, Assoc::Right)
             | Op::infix(Rule::xorass, Assoc::Right)
@@ -2371,6 +2373,8 @@ pub fn compile<I: BufRead, O: Write>(
         .op(Op::infix(Rule::assign, Assoc::Right)
             | Op::infix(Rule::mass, Assoc::Right)
             | Op::infix(Rule::pass, Assoc::Right)
+            | Op::infix(Rule::mulass, Assoc::Right)
+            | Op::infix(Rule::divass, Assoc::Right)
             | Op::infix(Rule::andass, Assoc::Right)
             | Op::infix(Rule::orass, Assoc::Right)
             | Op::infix(Rule::xorass, Assoc::Right)
